@@ -477,12 +477,20 @@ func (g *gen) addRecursion() {
 	}
 	c := cands[g.n("rec", 0, len(cands)-1)]
 	self := TypeExpr{Kind: "ref", Name: c.ResultType}
-	wrap := g.pick("recwrap", "Maybe", "vector", "dictionary")
-	f := Field{Name: fmt.Sprintf("rec%d", g.n("recid", 0, 99)), Type: TypeExpr{Kind: "ref", Name: wrap, Args: []Arg{{Type: &self}}}}
+	wrap := g.pick("recwrap", "Maybe", "vector", "dictionary", "maskedtuple")
+	id := g.n("recid", 0, 99)
+	f := Field{Name: fmt.Sprintf("rec%d", id), Type: TypeExpr{Kind: "ref", Name: wrap, Args: []Arg{{Type: &self}}}}
+	mask := Field{Name: fmt.Sprintf("recmask%d", id), Type: TypeExpr{Kind: "prim", Name: "#"}}
 	for _, x := range c.Fields {
-		if x.Name == f.Name {
+		if x.Name == f.Name || x.Name == mask.Name {
 			return
 		}
+	}
+	if wrap == "maskedtuple" {
+		// a constant-size tuple of the type itself is finite only under a mask of its own
+		f.Type = TypeExpr{Kind: "ref", Name: "tuple", Args: []Arg{{Type: &self}, {Nat: &NatExpr{Kind: "const", Const: uint32(g.n("recsize", 1, 3))}}}}
+		f.Mask = &MaskRef{Src: mask.Name, Bit: g.n("recbit", 0, 5)}
+		c.Fields = append(c.Fields, mask)
 	}
 	c.Fields = append(c.Fields, f)
 }
